@@ -142,6 +142,10 @@ def run(ctx) -> int:
             cases.append((configs.STANDARD[ci], "render", cd, None))
     for cd in docs.code_off_docs():
         cases.append((dict(docs.CODE_OFF), "render", cd, None))
+    # unstructured token soups under the all-rules configurations
+    srng = rng_for("C01", seed, "soup")
+    for k in range(300 if q else 6000):
+        cases.append((configs.STANDARD[(2, 4, 1)[k % 3]], "render", docs.token_soup(srng), None))
     n_corr, disagreements, kn, kbad, lines = pipecheck.correspond(cases, "c01")
 
     # the property on the implementation
